@@ -1,6 +1,6 @@
 CONSTANTS
-  MAXRUN = 12
-  MAXSETS = 3
+  MAXRUN = 24
+  MAXSETS = 2
   EMIT = TRUE
 SPECIFICATION Spec
 CHECK_DEADLOCK FALSE
